@@ -42,6 +42,9 @@ CHECKS['C02'] = dict(cat='exploration', tech='bounded-exhaustive enumeration of 
 CHECKS['C13'] = dict(cat='exploration', tech='same bounded-exhaustive round-trip machinery as C02 with cif_version = 1 and a refusal oracle',
       text='All strings of length <= 4 (thorough 5) over the 12 CIF 1.1-significant characters as scalars and loop values, the long-line families, column positions and structures without lists/tables, plus non-1.1 characters: cif_write(version 1) must either refuse with CIF_DISALLOWED_CHAR (only if some string has a non-1.1 character) or CIF_DISALLOWED_VALUE (only if a list/table or a string containing newline+semicolon is present), or produce output starting with the 1.1 magic, made solely of CIF 1.1 characters, no line over 2048, that re-parses as CIF 1.1 with folding and prefix decoding enabled, without error, to an equivalent CIF.',
       note='Which refusals are admissible is decided by an oracle written from the statement; any other failure code, or success with altered content, is a violation.', ref='C13')
+CHECKS['C07'] = dict(cat='exploration', tech='bounded-exhaustive enumeration of value objects x store routes x read routes on the real library; oracle = deep dump of the caller object taken before storing',
+      text='Strings of length 0,1,2,255-257,511-513,5000,70000 (ASCII, BMP, supplementary, multi-line) and syntactically special strings, quoted and unquoted; 31 number spellings plain, quoted and coerced from strings; unknown / n/a; ALL lists and tables with at most 4 (thorough 5) nodes over 6 leaves incl. a quoted number, keys in NFD / empty / case variants; special composites (3000-unit key, 200 elements, depth 6). Each value is stored through set_value, add_packet, add_item and iterator update, the caller object is then overwritten and freed, and the value is read back through get_value, packet iteration and cif_walk and compared field by field (kind, text, quoted, number, su, digits, scale, sign, order, key spelling).',
+      note='The parser as a store route is covered by C01. Sizes between the listed lengths are not enumerated.', ref='C07')
 NOT_APPLICABLE = {}
 
 def main():
